@@ -252,10 +252,23 @@ def check_history(case, ctx):
     except ValueError:
         ctx.excluded += 1
         return
+    import pickle
+
+    # worker processes started with 'spawn'/'forkserver' receive pickled adapters: a round trip must not change them
+    pickled = pickle.loads(pickle.dumps(gen.build_adapter(spec)))
     nt = False
     for i, read in enumerate(case["reads"]):
         m = warmed.match_to(read)
         fresh = gen.build_adapter(spec).match_to(read)
+        pm = pickled.match_to(read)
+        tp = None if pm is None else [pm.astart, pm.astop, pm.rstart, pm.rstop, pm.score, pm.errors]
+        tf0 = None if fresh is None else [fresh.astart, fresh.astop, fresh.rstart, fresh.rstop, fresh.score, fresh.errors]
+        if tp != tf0:
+            if pm is not None:
+                validate_match(spec, read, pm, pickled)
+            raise Violation(f"{spec['type']} adapter {spec['seq']!r} e={spec['e']} o={spec['o']} indels={spec['indels']}: "
+                            f"read {read!r} gives {tp} after a pickle round trip of the adapter but {tf0} before",
+                            observed=tp, expected=tf0)
         tw = None if m is None else [m.astart, m.astop, m.rstart, m.rstop, m.score, m.errors]
         tf = None if fresh is None else [fresh.astart, fresh.astop, fresh.rstart, fresh.rstop, fresh.score, fresh.errors]
         if m is not None:
